@@ -331,3 +331,54 @@ def body_broadcastable(na: int, a0: int, a1: int, nb: int, b0: int, b1: int) -> 
     if got != want:
         return 9
     return 0 if got else -1
+
+
+# ------------------------------------------------------------------ the predicate sees the CONVERTED value
+
+class LoHi(pane.PaneBase):
+    lo: int
+    hi: int
+
+
+CV = {
+    'set': make_converter(A[t.Set[int], len_range(min=2)]),
+    'fset': make_converter(A[t.FrozenSet[int], len_range(max=1)]),
+    'lohi': make_converter(A[LoHi, Condition(lambda s: s.lo <= s.hi, 'ordered')]),
+}
+for _v in ([1, 1], [1, 2], {'lo': 1, 'hi': 2}, {'lo': 2, 'hi': 1}, 5):
+    for _c in CV.values():
+        try:
+            _c.try_convert(_v)
+            _c.collect_errors(_v)
+        except Exception:
+            pass
+
+
+@obligation(pre="0 <= which <= 2 and -1 <= i <= 1 and -1 <= j <= 1", witnesses=(0, -1), timeout=120)
+def body_converted_value(which: int, i: int, j: int) -> int:
+    """conditions hold on the converted value (a set built from a list with duplicates; a dataclass built from a mapping), in both passes"""
+    if which == 0:
+        conv, v, want = CV['set'], [i, j], i != j
+    elif which == 1:
+        conv, v, want = CV['fset'], [i, j], i == j
+    else:
+        conv, v, want = CV['lohi'], {'lo': i, 'hi': j}, i <= j
+    ok, r = _try(conv, v)
+    try:
+        node = conv.collect_errors(v)
+    except Exception as e:
+        if crosshair_exc(e):
+            raise
+        return 7
+    if ok != (node is None):
+        return 8
+    if ok and not want:
+        return 1
+    if want and not ok:
+        return 2
+    if not ok:
+        # the predicate returned False, it did not raise: no cause may be attached
+        if isinstance(node, ConditionFailedError) and node.cause is not None:
+            return 6
+        return -1
+    return 0
